@@ -107,7 +107,7 @@ class PointEngine(Engine):
     expected_probes = ['history_len_ge_3', 'select_by_image', 'select_by_rel', 'select_negative_id', 'refused_absent',
                        'refused_ambiguous', 'refused_occupied', 'refused_occupied_image', 'allowed_nonperiodic_image',
                        'differential_alternatives', 'kwargs_given', 'origin_nonzero_scaled_db', 'one_atom_system',
-                       'integer_pos_input', 'old_id_composed', 'scribbled_results', 'working_units_changed', 'dumbbell_vector_object_reused', 'working_units_from_seed', 'explicit_zero_tolerance', 'box_changed_through_the_box_object']
+                       'integer_pos_input', 'old_id_composed', 'scribbled_results', 'working_units_changed', 'dumbbell_vector_object_reused', 'working_units_from_seed', 'explicit_zero_tolerance', 'box_changed_through_the_box_object', 'refused_index_out_of_range', 'scale_flag_as_numpy_bool']
     rule = ('Each run builds a base System (LAMMPS-oriented or rotated cell, any origin, any periodicity, 1-24 atoms with '
             'pairwise periodic separation >= 0.5 A, optionally one deliberately ambiguous pair 0.3*atol apart, 1-3 atom '
             'types, 0-3 extra per-atom properties of rank 0-2, optionally integer lattice coordinates) and applies a '
@@ -226,7 +226,7 @@ class PointEngine(Engine):
             return {'op': 'goto', 'to': r.randrange(len(st['hist']))}
         if scen == 'illformed':
             return {'op': 'illformed', 'what': r.choice(['bad_id', 'same_type', 'pos_and_id', 'neither', 'bad_type', 'v_with_kwargs']),
-                    'kind': r.choice(['v', 's', 'db'])}
+                    'kind': r.choice(['v', 's', 'db']), 'which': r.randrange(5), 'via': r.choice(['direct', 'point'])}
         atol = r.choice([None, None, None, 0.05, 0.002, 0, 0.0])
         av = st['atol0'] if atol is None else atol
         kind = r.choice(['v', 'i', 's', 'db'])
@@ -361,6 +361,12 @@ class PointEngine(Engine):
 
     def _call(self, ctx, m, kind, via, kw):
         s = m.real
+        if kw.get('scale') is True:
+            # flags come out of comparisons: every other call hands the flag over as the numpy boolean np.all(...) returns
+            ctx.nscale = getattr(ctx, 'nscale', 0) + 1         # per run: a replay sees the same alternation
+            if ctx.nscale % 2:
+                kw = dict(kw, scale=np.bool_(True))
+                ctx.probe('scale_flag_as_numpy_bool')
         if via == 'point':
             kw = dict(kw)
             return ctx.sut(am.defect.point, s, ptd_type=kind, **kw)
@@ -670,6 +676,10 @@ class PointEngine(Engine):
             s.box.set(vects=np.eye(3) * float(junk), origin=[junk, junk, junk])
         except Exception:       # noqa: BLE001
             pass
+        try:
+            s.pbc[...] = np.logical_not(s.pbc)      # in place: making a slab of the result must not make a slab of the input
+        except (ValueError, TypeError):
+            pass
         s.pbc = [False, False, False]
         ctx.fault('scribble_result')
         ctx.probe('scribbled_results')
@@ -680,7 +690,16 @@ class PointEngine(Engine):
         fn = getattr(am.defect, KIND_FN[kind])
         extra = {'db_vect': [0.1, 0.0, 0.0]} if kind == 'db' else ({'atype': 4} if kind == 's' else {})
         if what == 'bad_id':
-            ok, res = ctx.sut(fn, s, ptd_id=m.n + 3, **extra)
+            # an index that names no atom is an absent site: refused, never folded back into range
+            pid = {0: m.n + 3, 1: m.n, 2: -m.n - 1, 3: 2 * m.n, 4: -2 * m.n - 1}[int(op.get('which', 0)) % 5]
+            if op.get('via') == 'point':
+                ok, res = ctx.sut(am.defect.point, s, ptd_type=kind, ptd_id=pid, **extra)
+            else:
+                ok, res = ctx.sut(fn, s, ptd_id=pid, **extra)
+            ctx.probe('refused_index_out_of_range')
+            if ok:
+                raise Violation('C15.R1', {'what': 'an index outside -natoms..natoms-1 was accepted', 'ptd_id': pid, 'natoms': m.n, 'kind': kind,
+                                           'natoms_after': getattr(res, 'natoms', None)}, klass='refuse/index-out-of-range/' + kind)
         elif what == 'same_type':
             ok, res = ctx.sut(am.defect.substitutional, s, ptd_id=0, atype=int(m.rows[0]['atype']))
         elif what == 'pos_and_id':
